@@ -433,6 +433,13 @@ class Analyzer:
             return ("T", (flat(recv), NONE)) if not is_tuple(recv) else recv
         if last in ("keys",) and recv is not None:
             return recv
+        if last in ("pop", "popitem") and recv is not None and isinstance(recv, tuple) and recv and recv[0] == UNORDERED and recv[1] >= ABS and not args:
+            # set.pop() / dict.popitem(): an arbitrary element -- arbitrary means "first in hash order"
+            self.flag(f, e, "C07.O2", "an element is taken from an unordered container of absolute epochs: %s" % ast.unparse(e)[:80],
+                      "the order in which elements keyed by absolute time are taken does not depend on their values (indices, or sorted first)",
+                      "%s|%s|unordered-pop" % (f.module.relpath, f.qualname),
+                      "which element `pop()` returns follows the hash order of the epochs, which changes with the time origin: where the arbitration has a tie the storm that proposes first keeps the rise, so a shifted record is matched differently")
+            return recv[1]
         if last in ("values",):
             return NONE
         if last in ("set", "frozenset", "dict"):
